@@ -1,4 +1,5 @@
 import LoraVerif.Gen.UplinkFn
+import LoraVerif.Props.TieA.DynPlan
 import LoraVerif.Props.TieA.Tactics
 import LoraVerif.Model.Mac
 import LoraVerif.Gen.CmdTables
@@ -158,4 +159,40 @@ theorem tieA_clear_mac_commands (u : Gen.UplinkFn.Uplink) :
 #print axioms tieA_add_mac_command
 #print axioms tieA_downlink_confirmation
 #print axioms tieA_clear_mac_commands
+/-- builder N — NewChannelReq, the WHOLE handler: the state-passing translation of the current source of
+`DynamicChannelPlan::handle_new_channel` (`Gen/DynPlanFn.lean`, with `DataRateRange::{min,max}_data_rate`
+and `Channel::new_with_dr`) is the model's `handleNewChannel` on every plan with 16 slots and a 9-byte
+mask: join channels and indices ≥ 16 are refused with (false, false); frequency 0 removes the channel,
+clears its mask bit and answers (true, true); otherwise the answer is (frequency in band, every rate of
+min..=max defined and max < 15) and the channel is created and enabled iff both hold.  Abstract: the
+region's parameters (the model's; tied by `tieA_newChannel_*`, C09/C10 tie A) and the two `ChannelMask`
+methods (`MaskOk`).  Supersedes nothing: the guard comparisons `tieA_newChannel_*` stay.  Proved in
+`Props/TieA/DynPlan.lean`. -/
+theorem tieA_handle_new_channel (mops : Gen.DynPlanFn.MaskFns) (hm : TieA.Dyn.MaskOk mops) (rs : RegionState)
+    (hfix : rs.id.isFixed = false)
+    (p : Gen.DynPlanFn.DynamicChannelPlan) (hplan : rs.plan = .dyn (TieA.Dyn.planOf p)) (hw : TieA.Dyn.PlanWF p)
+    (index freq : Int) (dr : Option Gen.DynPlanFn.DataRateRange) (hi : 0 ≤ index) (hf : 0 ≤ freq)
+    (hdr : ∀ d, dr = some d → 0 ≤ d._0 ∧ d._0 ≤ 255) :
+    (Gen.DynPlanFn.DynamicChannelPlan.handle_new_channel (TieA.Dyn.regOf rs.id) mops p index freq dr).map
+        (fun o => (o.1, { rs with plan := .dyn (TieA.Dyn.planOf o.2) }))
+      = (handleNewChannel rs index.toNat freq.toNat (dr.map (fun d => d._0.toNat))).toOption :=
+  TieA.Dyn.tieA_handle_new_channel mops hm rs hfix p hplan hw index freq dr hi hf hdr
+
+/-- builder N — DlChannelReq, the WHOLE handler: the state-passing translation of the current source of
+`DynamicChannelPlan::channel_dl_update` is the model's `channelDlUpdate`: answer (frequency in band, index
+below 16 ∧ channel enabled ∧ defined ∧ its frequency non-zero); the downlink frequency is stored only when
+both bits are set (`None` when it equals the uplink frequency: RX1 then follows the uplink), otherwise
+nothing changes.  Proved in `Props/TieA/DynPlan.lean`. -/
+theorem tieA_channel_dl_update (mops : Gen.DynPlanFn.MaskFns) (hm : TieA.Dyn.MaskOk mops) (rs : RegionState)
+    (p : Gen.DynPlanFn.DynamicChannelPlan) (hplan : rs.plan = .dyn (TieA.Dyn.planOf p)) (hw : TieA.Dyn.PlanWF p)
+    (index freq : Int) (hi : 0 ≤ index) (hf : 0 ≤ freq) :
+    (Gen.DynPlanFn.DynamicChannelPlan.channel_dl_update (TieA.Dyn.regOf rs.id) mops p index freq).map
+        (fun o => (o.1, { rs with plan := .dyn (TieA.Dyn.planOf o.2) }))
+      = (channelDlUpdate rs index.toNat freq.toNat).toOption :=
+  TieA.Dyn.tieA_channel_dl_update mops hm rs p hplan hw index freq hi hf
+
+
+example : TieA.Dyn.MaskOk TieA.Dyn.exMops := TieA.Dyn.exMops_ok
+#print axioms tieA_handle_new_channel
+#print axioms tieA_channel_dl_update
 end C08
